@@ -1,6 +1,7 @@
 import OjgVerif.Props.C17
 import OjgVerif.Match.LemmasFilterSpec
 import OjgVerif.Match.LemmasFilterOne
+import OjgVerif.Props.C17Chunks
 /-! # C17 — target sets WITH filter targets
 
 Until now a set containing a filter target was covered by correspondence only. Here:
@@ -123,6 +124,21 @@ theorem C17_filter_iff (targets : List Target) (doc : JV) (hdoc : NoDupKeys doc 
     unfold agreesAt
     rw [← h1, ← h2, h]
   · exact C17_filter_local targets doc hdoc hdev
+
+/-- **Filter target sets under any chunking**: `C17_filter_sets` behind `oj.Tokenizer.Load` — for every
+text the tokenizer accepts as one document `doc` without a repeated member name, every chunking and
+every target set non-deviating up to its trailing filters, the callbacks
+are the handler's reports at the outermost locations the stripped targets select on `doc`. -/
+theorem C17_filter_sets_chunked (text : Bytes) (doc : JV)
+    (hacc : Json.run Json.ojTables (tokCfg true) [text] = .ok [doc])
+    (hnr : NoRepeatedNames (tokCfg true) [text]) (targets : List Target)
+    (hdev : ∀ t ∈ targets, deviates (stripFilter t) = false)
+    (chunks : List Bytes) (hch : chunks.flatten = text) :
+    matchRun Dev.cur targets (tokEvents Json.ojTables (tokCfg true) chunks) =
+      (expected (targets.map stripFilter) doc).flatMap (reportAt Dev.cur targets doc) := by
+  obtain ⟨hev, hnd⟩ := tokEvents_of_text text doc hacc hnr chunks hch
+  rw [hev]
+  exact C17_filter_sets targets doc hnd hdev
 
 /-- the filter accepts at most one element (member) of the container -/
 def atMostOne (p : JV → Bool) (u : JV) : Bool := decide ((accepted p u).length ≤ 1)
